@@ -650,4 +650,34 @@ example : reSub (populateAlts tinyTable []).reverse [8807, 824, 8807, 38] = ofS 
 example : ¬ TableOK [([97, 59], [8807, 824]), ([98, 59], [8807, 824, 824])] := by
   intro h; have := h.1 [8807, 824] (by decide) [8807, 824, 824] (by decide) (by decide); exact absurd this (by decide)
 
+/-! ## `Formatter` subclasses that override `attributes()` -/
+
+/-- The base class is the instance "sort, with `empty_attributes_are_booleans` applied" of the hook. -/
+theorem attributes_hook_default (c : Cfg) (i : Subst → PStr → PStr) (par : Option PStr) (n : Node) :
+    renderHook (attributes c) c i par n = render c i par n := renderHook_default c i par n
+
+/-- Whatever `attributes()` a subclass defines, the output depends on a tag's attribute dict only through what that
+    method returns for it: trees whose attribute lists the hook cannot tell apart render the same. -/
+theorem attributes_hook_decides (h : AttrHook) (c : Cfg) (i : Subst → PStr → PStr) (par : Option PStr) (t t' : Node)
+    (hs : SameUpToHook h t t') : renderHook h c i par t = renderHook h c i par t' := renderHook_congr h c i par t t' hs
+
+/-- So a subclass keeps the "whatever the insertion order" guarantee exactly when its `attributes()` does not look at the
+    order; the base implementation is one such (it sorts), … -/
+theorem base_attributes_ignore_insertion_order (c : Cfg) (as₁ as₂ : List (PStr × AttrVal)) (hp : as₁.Perm as₂)
+    (hd : (as₁.map (·.1)).Nodup) : attributes c as₁ = attributes c as₂ := attributes_perm c as₁ as₂ hp hd
+
+/-- … the documentation's `UnsortedAttributes` (yield the items as they come) is not, and neither
+    `empty_attributes_are_booleans` nor sorting is applied for it. -/
+example :
+    renderHook id (mkHTMLFormatter { empty_attributes_are_booleans := true }) builtin none (.tag [112] [] [([98], .str [49]), ([97], .str [])] false false [])
+      = ofS "<p b=\"1\" a=\"\"></p>" ∧
+    renderHook id (mkHTMLFormatter { empty_attributes_are_booleans := true }) builtin none (.tag [112] [] [([97], .str []), ([98], .str [49])] false false [])
+      = ofS "<p a=\"\" b=\"1\"></p>" ∧
+    render (mkHTMLFormatter { empty_attributes_are_booleans := true }) builtin none (.tag [112] [] [([98], .str [49]), ([97], .str [])] false false [])
+      = ofS "<p a b=\"1\"></p>" := by decide +kernel
+
+example : SameUpToHook (attributes (mkHTMLFormatter {}))
+    (.tag [112] [] [([98], .str [49]), ([97], .none)] false false []) (.tag [112] [] [([97], .none), ([98], .str [49])] false false []) :=
+  .tag _ _ _ _ _ _ _ _ (by decide) .nil
+
 end BS.Props.C15
